@@ -125,6 +125,17 @@ def TEMPLATES():
         ('op:SE3*point', 'X*p', [A, L, L, L, L], lambda a: sm.SE3(T3(a), check=False) * [a[4], a[2], a[1]]),
         ('op:SO3*SO3', 'X*Y', [A, A, A], lambda a: sm.SO3.Rx(a[0]) * sm.SO3.Ry(a[1]) * sm.SO3.Rz(a[2])),
         ('op:SO3*point', 'X*p', [A, A, L], lambda a: (sm.SO3.Rx(a[0]) * sm.SO3.Ry(a[1])) * [a[2], 1, 2]),
+        # the same entries in their other documented call forms: separate scalars with unit='deg', option order, t= as tuple / ndarray
+        ('base.eul2r', "phi,theta,psi,unit='deg'", [D, D, D], lambda a: b.eul2r(a[0], a[1], a[2], unit='deg')),
+        ('base.eul2tr', "phi,theta,psi,unit='deg'", [D, D, D], lambda a: b.eul2tr(a[0], a[1], a[2], unit='deg')),
+        ('base.trotx', 'theta,t=ndarray', [A, L, L, L], lambda a: b.trotx(a[0], t=np.array([a[1], a[2], a[3]]))),
+        ('base.troty', 'theta,t=tuple', [A, L, L, L], lambda a: b.troty(a[0], t=(a[1], a[2], a[3]))),
+        ('base.trotz', "unit='deg',t=ndarray", [D, L, L, L], lambda a: b.trotz(a[0], unit='deg', t=np.array([a[1], a[2], a[3]]))),
+        ('SE3.Rx', 'theta,t=ndarray', [A, L, L, L], lambda a: sm.SE3.Rx(a[0], t=np.array([a[1], a[2], a[3]]))),
+        ('SE3.Ry', "unit='deg',t=tuple", [D, L, L, L], lambda a: sm.SE3.Ry(a[0], unit='deg', t=(a[1], a[2], a[3]))),
+        ('base.transl', 'ndarray', [L, L, L], lambda a: b.transl(np.array([a[0], a[1], a[2]]))),
+        ('SE3.Eul', "[..],unit='deg'", [D, D, D], lambda a: sm.SE3.Eul([a[0], a[1], a[2]], unit='deg')),
+        ('SE3.RPY', "[..],unit='deg',order='yxz'", [D, D, D], lambda a: sm.SE3.RPY([a[0], a[1], a[2]], unit='deg', order='yxz')),
         # pose objects holding several symbolic values
         ('op:SE3seq.inv', '[X,Y].inv()', [A, L, L, L, A, L, L, L], lambda a: sm.SE3([T3(a[:4]), T3(a[4:])], check=False).inv()),
         ('op:SE3seq*SE3', '[X,Y]*Z', [A, L, L, L, A, L, L, L], lambda a: sm.SE3([T3(a[:4]), T3(a[4:])], check=False) * sm.SE3.Rx(a[4], t=[a[1], 2, a[7]])),
